@@ -16,7 +16,7 @@ RULE = (
     "shutdown() while 1-3 threads keep adopting every few ms and coroutine payloads with long (shielded) cleanup keep the runtime "
     "in its 'finishing cleanup' window. Oracle at quiescence (all expected starts seen, plus 5 more polling periods): exactly one "
     "start per payload/service with exactly the submitted arguments, in the right flavour context (one loop + thread for asyncio, "
-    "one trio token + thread for trio, other threads for thread payloads); every adopt returned None within 1 s without raising; "
+    "one trio token + thread for trio, other threads for thread payloads); every adopt returned None (while its payload was still running, within a 10 s bound) without raising; "
     "during shutdown no adopt whose call interval lies inside a payload's cleanup interval may raise and nothing starts twice. "
     "Non-trivial = >= 2 flavours and (an adoption from inside a payload, a service created after start, or an adoption inside a "
     "cleanup window); distinct = canonical JSON of the scenario."
@@ -232,7 +232,9 @@ def judge(sc, obs) -> Result:
             continue
         if o["op"] == "adopt" and o.get("result") != "none" and (before_shutdown or inside):
             res.fail("adopt-returns-value", f"adopt returned {o.get('result')}")
-        if (o["t_return"] - o["t_call"]) > 1e9 and before_shutdown:
+        # the payloads run until the runtime stops, so an adopt that returns at all did not wait for its payload;
+        # the duration is only bounded generously (10 s) - a loaded machine may take long to start a thread
+        if (o["t_return"] - o["t_call"]) > 10e9 and before_shutdown:
             res.fail("adopt-waits", f"adopt of payload {o['pid']} by {o['by']} took {(o['t_return'] - o['t_call']) / 1e6:.0f} ms although the payload keeps running")
     # ---- nothing lost (steady phase)
     if sc["phase"] == "steady":
